@@ -1,6 +1,8 @@
 import Hgxv.Model.Wire
 import Hgxv.Model.C14
 import Hgxv.Model.C14Raw
+import Hgxv.Model.C14Trace
+import Hgxv.Model.C14Meta
 /-! Line protocol for C14.  State: the loaded hypergraph (argument of the next call).
   `load <weighted> <nodes> <edges natss> <weights> <mds>`                        -> `ok`
   `random <n> <sizes> <counts> <groups natsss>`                                    -> HG | `rej`
@@ -20,6 +22,17 @@ import Hgxv.Model.C14Raw
   `addedgesR <inplace> <k num> <order num|-> <size num|-> <draws>`                      -> CALL ` ret ` 0/1 | `rej`
   `shuffleR <inplace> <order|-1> <size|-1> <p num> <preserve> <idx> <choices>`          -> as `shuffle`
   `hoadR <N num> <time num> <orders nums> <acts> <coins> <flags> <samples>`             -> as `hoad`
+  `used <k> <draws natss>`   -> `<draws taken by the loop while len(edges) < k> <hyperedges collected>`
+  `sftrace <n> <sizes> <counts ints> <scale keys> <corr 0/1> <target|none> <shuffles> <events natss>`
+       events: `0,m` exponential(scale, m) | `1,a,b` swap choice | `2,s,d..` choice(nodes, size=s) = d
+       -> HG ` ex ` k ` sw ` k ` ch ` k | `rej` | `stuck`   (complete sequence of np.random calls of a run that returned)
+  `sferr <sizes> <counts ints> <scale keys> <corr 0/1> <target|none> <shuffles>` -> number of the ValueError raised by the validation | `none`
+  `argerr <order|-1> <size|-1> <pn> <pd>` (`pd = 0`: routine without p)          -> 1 | 2 | 3 | `none`
+  `loadm <node metadata natss: node,tok> <hypergraph metadata tok> <incidence metadata natss: tok,node,edge..>`  -> `ok`
+       (the metadata tables of the loaded hypergraph; a `load` resets them)
+  `addedgeM` / `addedgesM` / `shuffleallM` <arguments of `addedge` / `addedges` / `shuffleall`>, `shuffleM <inplace>
+       <order|-1> <size|-1> <pn> <pd> <idx> <choices>`   -> `A ` HGM ` R ` (HGM | `none`) | `rej`
+       HGM = HG ` M ` <node metadata sorted> <hypergraph metadata> <incidence metadata sorted>
  HG   = `<weighted> <sorted nodes> <hyperedges sorted> <weights> <metadata tokens>` (5 tokens)
  CALL = `A ` HG ` R ` (HG | `none`) -/
 open Wire C14
@@ -66,6 +79,13 @@ def num? (s : String) : Option Num :=
 def nums? (s : String) : Option (List Num) := listOf? "," "-" num? s
 /-- `-` = the argument was not passed -/
 def optNum? (s : String) : Option (Option Num) := if s == "-" then some none else (num? s).map some
+
+def mkEvents : List (List Nat) → Option (List SfEv)
+  | [] => some []
+  | [0, m] :: r => (mkEvents r).map (SfEv.exp m :: ·)
+  | [1, a, b] :: r => (mkEvents r).map (SfEv.swap a b :: ·)
+  | (2 :: s :: d) :: r => (mkEvents r).map (SfEv.choice s d :: ·)
+  | _ => none
 
 def step (h : HG) : List String → HG × String
   | ["load", w, nodes, edges, ws, mds] =>
@@ -127,6 +147,37 @@ def step (h : HG) : List String → HG × String
             | some r => showHG r ++ " ret " ++ showBool (sfReturned (s.zip (c.map Int.toNat)) g)
             | none => "rej")
     | _, _, _, _, _, _ => (h, "bad-op")
+  | ["used", k, draws] =>
+    match nat? k, natss? draws with
+    | some k, some d => (h, toString (collectUsed k [] d) ++ " " ++ toString (collect k [] d).length)
+    | _, _ => (h, "bad-op")
+  | ["sftrace", n, sizes, counts, skeys, corr, target, shuf, events] =>
+    match nat? n, nats? sizes, ints? counts, nats? skeys, int? shuf, (natss? events).bind mkEvents with
+    | some n, some s, some c, some sk, some sh, some evs =>
+      let tgt : Option (Option Rat) := if target == "none" then some none else (rat? target).map some
+      match tgt with
+      | none => (h, "bad-op")
+      | some tgt =>
+        (h, match scaleFreeTrace n s c sk (corr == "1") tgt sh evs with
+            | .done r => showHG r ++ " ex " ++ toString (countExp evs) ++ " sw " ++ toString (countSwap evs)
+                ++ " ch " ++ toString (countChoice evs)
+            | .rej => "rej"
+            | .stuck => "stuck")
+    | _, _, _, _, _, _ => (h, "bad-op")
+  | ["sferr", sizes, counts, skeys, corr, target, shuf] =>
+    match nats? sizes, ints? counts, nats? skeys, int? shuf with
+    | some s, some c, some sk, some sh =>
+      let tgt : Option (Option Rat) := if target == "none" then some none else (rat? target).map some
+      match tgt with
+      | none => (h, "bad-op")
+      | some tgt => (h, match sfError s c sk (corr == "1") tgt sh with | some i => toString i | none => "none")
+    | _, _, _, _ => (h, "bad-op")
+  | ["argerr", order, size, pn, pd] =>
+    match int? pn, nat? pd with
+    | some pn, some pd =>
+      (h, match argError (optArg order) (optArg size) (if pd = 0 then none else some (pn, pd)) with
+          | some i => toString i | none => "none")
+    | _, _ => (h, "bad-op")
   | ["randomR", n, sizes, counts, groups] =>
     match num? n, nums? sizes, nums? counts, natsss? groups with
     | some n, some s, some c, some g =>
@@ -187,4 +238,52 @@ def step (h : HG) : List String → HG × String
     | _, _, _, _, _, _, _ => (h, "bad-op")
   | _ => (h, "bad-op")
 
-def main : IO Unit := Wire.run step {}
+def mkNmeta : List (List Nat) → Option (List (Nat × Nat))
+  | [] => some []
+  | [x, t] :: r => (mkNmeta r).map ((x, t) :: ·)
+  | _ => none
+def mkImeta : List (List Nat) → Option (List ((Edge × Nat) × Nat))
+  | [] => some []
+  | (t :: x :: e) :: r => (mkImeta r).map (((e, x), t) :: ·)
+  | _ => none
+
+def showHGM (m : HGM) : String :=
+  showHG m.core ++ " M " ++ showNatss (sortLex (m.nmeta.map (fun p => [p.1, p.2]))) ++ " " ++ toString m.hmeta ++ " "
+    ++ showNatss (sortLex (m.imeta.map (fun p => p.2 :: p.1.2 :: p.1.1)))
+
+def showCallM : Option CallResultM → String
+  | none => "rej"
+  | some r => "A " ++ showHGM r.arg ++ " R " ++ (match r.ret with | none => "none" | some m => showHGM m)
+
+/-- the commands that speak about the metadata tables; everything else is `step` on the content -/
+def stepM (m : HGM) : List String → HGM × String
+  | ["loadm", nm, hm, im] =>
+    match (natss? nm).bind mkNmeta, nat? hm, (natss? im).bind mkImeta with
+    | some nm, some hm, some im => ({ m with nmeta := nm, hmeta := hm, imeta := im }, "ok")
+    | _, _, _ => (m, "bad-op")
+  | ["addedgeM", inpl, order, size, draw] =>
+    match nats? draw with
+    | some d => (m, showCallM (addRandomEdgeM m (optArg order) (optArg size) (inpl == "1") d))
+    | none => (m, "bad-op")
+  | ["addedgesM", inpl, k, order, size, draws] =>
+    match nat? k, natss? draws with
+    | some k, some d => (m, showCallM (addRandomEdgesM m k (optArg order) (optArg size) (inpl == "1") d))
+    | _, _ => (m, "bad-op")
+  | ["shuffleM", inpl, order, size, pn, pd, idx, choices] =>
+    match int? pn, nat? pd, nats? idx, natss? choices with
+    | some pn, some pd, some idx, some cs =>
+      (m, showCallM (randomShuffleM m (optArg order) (optArg size) (inpl == "1") pn pd idx cs))
+    | _, _, _, _ => (m, "bad-op")
+  | ["shuffleallM", inpl, pn, pd, sizes, idxs, choices] =>
+    match int? pn, nat? pd, nats? sizes, natss? idxs, natsss? choices with
+    | some pn, some pd, some sizes, some idxs, some cs =>
+      (m, showCallM (randomShuffleAllM m (inpl == "1") pn pd sizes (idxs.zip cs)))
+    | _, _, _, _, _ => (m, "bad-op")
+  | "load" :: rest =>
+    let r := step m.core ("load" :: rest)
+    ({ core := r.1 }, r.2)
+  | cmd =>
+    let r := step m.core cmd
+    ({ m with core := r.1 }, r.2)
+
+def main : IO Unit := Wire.run stepM {}
